@@ -1,6 +1,6 @@
 (* Ops/C19.v — protocol entry points for property C19 (1-Euclidean). *)
 From Coq Require Import List NArith ZArith QArith String.
-From PrefVerif Require Import Lib.Val Model.Euclid.
+From PrefVerif Require Import Lib.Val Model.Euclid Model.EuclidLP.
 Import ListNotations.
 Open Scope string_scope.
 
@@ -21,5 +21,10 @@ Definition op_refuted (v : val) : val :=
 Definition op_refuted_fast (v : val) : val :=
   ebool (eucl_refuted_fast (d_order (dnth 0 v)) (d_orders (dnth 1 v))).
 
+(* c19.decide (alts profile) -> bool : exact reference decider (Fourier-Motzkin over Q; small profiles) *)
+Definition op_decide (v : val) : val :=
+  ebool (eucl_decide (d_order (dnth 0 v)) (d_orders (dnth 1 v))).
+
 Definition ops : optable :=
-  [ ("c19.check", op_check); ("c19.refuted", op_refuted); ("c19.refuted_fast", op_refuted_fast) ].
+  [ ("c19.check", op_check); ("c19.refuted", op_refuted); ("c19.refuted_fast", op_refuted_fast);
+    ("c19.decide", op_decide) ].
